@@ -309,7 +309,7 @@ class Check(PropertyCheck):
     def correspond(self, ctx, res):
         if getattr(ctx, "replay_path", None):
             rp = json.load(open(ctx.replay_path))
-            cases = [(rp["failure"]["input"]["line"], "replay")]
+            cases = [] if rp["failure"]["input"].get("par") else [(rp["failure"]["input"]["line"], "replay")]
         else:
             cases = []
             cdir = os.path.join(C.VERIF, "corpus", "C13")
@@ -323,6 +323,29 @@ class Check(PropertyCheck):
         lines = [c[0] for c in cases]
         scratch = os.path.join(C.BUILD, "scratch")
         os.makedirs(scratch, exist_ok=True)
+        replay_par = getattr(ctx, "replay_path", None) and json.load(open(ctx.replay_path))["failure"]["input"].get("par")
+        if not getattr(ctx, "replay_path", None) or replay_par:
+            # "untouched paths compare equal" with several observers at once (lanes hash files concurrently): N threads, each
+            # observing its own untouched file through one checksum-only file system, against the single-threaded baseline
+            par = ["4 512 %d" % (12 if ctx.thorough else 4), "2 2048 %d" % (8 if ctx.thorough else 3), "8 96 %d" % (20 if ctx.thorough else 6)]
+            if replay_par:
+                par = [json.load(open(ctx.replay_path))["failure"]["input"]["line"]]
+            prc, pout, perr = C.run_lines([ctx.exe[("vc13", "plain")], "par", scratch], par)
+            if prc != 0 or len(pout) != len(par):
+                res.mismatches.append({"stream": "c13par", "input": "harness exit %d, %d/%d lines" % (prc, len(pout), len(par)), "impl": perr[-300:]})
+            else:
+                tot = 0
+                for l, o in zip(par, pout):
+                    f = dict(kv.split("=") for kv in o.split(" ")[1:]) if o.startswith("par ") else None
+                    if f is None:
+                        res.mismatches.append({"stream": "c13par", "input": l, "impl": o[:200]})
+                        continue
+                    tot += int(f["files"]) * int(f["reps"])
+                    res.evaluations += int(f["files"]) * int(f["reps"])
+                    if int(f["unequal"]) or int(f["distinct_baselines"]) != int(f["files"]):
+                        res.oracle_failures.append({"what": "checksum-only mode, %s threads each observing its own UNTOUCHED file %s times: %s observations differ from the single-threaded baseline (%s distinct baselines for %s different files)" % (
+                            f["files"], f["reps"], f["unequal"], f["distinct_baselines"], f["files"]), "mode": "checksum-only", "call": "getFileInfo (concurrent)", "kind": "untouched-unequal", "concurrent": True, "input": {"line": l, "par": True}})
+                res.distribution["concurrent_untouched_observations"] = tot
         hrc, hout, herr = C.run_lines([ctx.exe[("vc13", "plain")], "pairs", scratch], lines)
         if hrc != 0 or len(hout) != len(lines):
             res.mismatches.append({"stream": "c13pairs", "input": "harness exit %d, %d/%d lines" % (hrc, len(hout), len(lines)), "impl": herr[-300:]})
